@@ -249,7 +249,20 @@ def run_impl(inp, extra_kwargs=None, predictor=None):
                     yield t0 + k * ts, buf[:len(pts)]
                 else:
                     yield t0 + k * ts, a
-        gen = tp.link_iter(it(), sr, **kw)
+        # ... or the movie is handed over as a re-iterable container (documented: "an iterable of
+        # ndarrays or of (frame number, ndarray) pairs"): a list of pairs, a list of arrays, one 3-D array
+        container = (len(frames) * 3 + dim + inp.get("memory", 0)) % 5
+        src = it()
+        if not reuse_buf:
+            if container == 0:
+                src = list(it())
+            elif container == 1 and t0 == 0 and ts == 1:
+                src = [a for _, a in it()]
+            elif container == 2 and t0 == 0 and ts == 1 and len(set(len(p) for p in frames)) == 1 and len(frames[0]) > 0:
+                src = np.array([a for _, a in it()])
+            elif container == 3:
+                src = tuple(it())
+        gen = tp.link_iter(src, sr, **kw)
         # two kinds of consumer: one reads each yielded list at once, the other keeps the yielded
         # objects and reads them when the generator is exhausted (`list(tp.link_iter(...))`): what was
         # yielded for a level must not change afterwards
@@ -267,7 +280,9 @@ def run_impl(inp, extra_kwargs=None, predictor=None):
             kept.append((int(t), k, ids if eager else [int(i) for i in ids]))
             k += 1
         for t, k, ids in kept:
-            levels.append((t, frames[k], None if ids is None else [int(i) for i in ids]))
+            # more results than frames is judged like any other wrong answer (labels for no features)
+            levels.append((t, frames[k] if k < len(frames) else [],
+                           None if ids is None else [int(i) for i in ids]))
         return levels
     if entry == "link_df_iter":
         given = []
@@ -322,6 +337,20 @@ def run_impl(inp, extra_kwargs=None, predictor=None):
             return None
         df = pd.DataFrame(rows, columns=cols + ["frame"])
         df["frame"] = df["frame"].astype(int)
+        # the table as a user may hold it: rows in any order, the frame column in any numeric dtype
+        import random as _random
+        rr = _random.Random(len(rows) * 7919 + dim * 31 + inp.get("memory", 0))
+        if rr.random() < 0.5:
+            order = list(range(len(df)))
+            rr.shuffle(order)
+            df = df.iloc[order].reset_index(drop=True)
+        fmin, fmax = int(df["frame"].min()), int(df["frame"].max())
+        dts = ["int64", "int64", "int32", "float64"]
+        if fmin >= 0:
+            dts += ["uint64", "uint32"] + (["uint16"] if fmax < 60000 else []) + (["uint8"] if fmax < 250 else [])
+        if -120 < fmin and fmax < 120:
+            dts += ["int8"]
+        df["frame"] = df["frame"].astype(rr.choice(dts))
         lkw = dict(kw)
         if inp.get("default_cols") and dim >= 2:
             # rely on link's default pos_columns, with the table listing x before y (before z)
